@@ -3,6 +3,7 @@ package main
 // C20 — shared instances are race-free and isolated: no hidden writes to global state (DESIGN §5 C20).
 
 var c20ParamSliceAllow = []allowSite{
+	{"op.ValidateAuthReqScopes", "slices.DeleteFunc(scopes)", "filter-and-return by contract, exactly like slices.DeleteFunc itself: the function returns the filtered slice and its only in-module callers (ValidateAuthRequestClient, LegacyServer.VerifyAuthRequest path) assign the result back to the very field they passed (authReq.Scopes = ...), a per-request object that is not shared"},
 	{"http.ConcatenateJSON", "first[(len(first) - 1)]", "append-style byte-slice builder: the result reuses and extends `first` exactly like append(first, ...) would; the argument is consumed by contract and is not a shared instance (no in-module caller)"},
 }
 
